@@ -41,6 +41,9 @@ CHECKS = {
     "C11": dict(text="in-process clause only: OptionParser::run executed from MIR with current_args / process::exit / print macros as recording models: the program body is reached iff the run yields a value (and nothing is printed), otherwise exactly one print to stdout with status 0 (help/version/completion) or to stderr with status 1 (failure); ParseFailure::exit_code on all variants. One concrete argv per path is additionally pushed through a REAL process running run() (supporting evidence)",
                 note="the clause 'a real process behaves like run_inner for every OS argv (non-UTF-8 through execve, argv[0] -> name)' is outside symbolic execution and is NOT claimed; message non-emptiness is not decided (rendering cut); bounds <=3 argv words quick / <=4 thorough, 4 grammars",
                 tech=MIRSYM + ", effect-recording models", ref="DESIGN.md 4/C11"),
+    "C13": dict(text="Doc::render_console (with the Splitter) executed from MIR on the block structures bpaf emits, text of symbolic bytes, symbolic width: inserted bytes are only spaces/newlines and the non-whitespace user bytes appear exactly once and in order (exact provenance); short form is a prefix / the whole first paragraph; with a concrete multi-word filler and max_width symbolic in 40..=48 every multi-word line is at most max_width+2 columns",
+                note="bounds: 8 templates, symbolic text <=4 bytes quick / <=5 thorough over {space,newline,a,b,é}, widths 1..=16 and 100 for content, 40..=48 for the width clause; widths 49..=300, longer texts and colours are outside",
+                tech=MIRSYM + " over symbolic bytes, provenance obligations", ref="DESIGN.md 4/C13"),
     "C15": dict(text="the single-quote wrapper `Shell` executed from MIR (core::fmt interpreted) on every valid UTF-8 string up to the bound: the output lexes under POSIX rules as exactly one word with the input as value; render_zsh/bash/fish/simple executed from MIR on candidate and completer lists whose user-originated strings are tracked atoms: no atom reaches a zsh/bash script unquoted, every line is a complete directive, every candidate / requested completer appears exactly once",
                 note="bounds: strings <=6 bytes quick / <=8 thorough; 0-2 candidates, 0-1 (thorough 0-2) completers; reference lexers in props/C15.py; sourcing in a real shell not attempted; three defects found and fixed (7d9d288, 7f18a65, 640d5de)",
                 tech=MIRSYM + " over symbolic bytes / tracked atoms", ref="DESIGN.md 4/C15"),
